@@ -32,6 +32,8 @@ const limitBeforeStart = 3
 
 var thresholdAfterStart int32
 
+var stoppable *modules.Module
+
 var (
 	limitCases     int64
 	saturatedCases int64
@@ -45,6 +47,8 @@ func TestMain(m *testing.M) {
 	for _, n := range []string{"c15a", "c15b"} {
 		mods = append(mods, modules.Register(n, nil, nil, nil))
 	}
+	// a module that TestPropStoppedModuleObeysLimit stops on its own (module management) and starts again
+	stoppable = modules.Register("c15c", nil, nil, nil)
 	modules.VerifHook = hook
 	// the limit is configured before the module system is started, as a program does it: Start has to leave it alone
 	modules.SetMaxConcurrentMicroTasks(limitBeforeStart)
@@ -123,7 +127,9 @@ func genCase(t *rapid.T) *caseSpec {
 				Prio:    rapid.SampledFrom([]string{"med", "med", "low", "high"}).Draw(t, "prio"),
 				HoldUS:  rapid.SampledFrom([]int{200, 500, 1000, 2500, 5000}).Draw(t, "hold"),
 			}
-			if c.LimitCase && m.Prio == "high" {
+			if c.LimitCase && m.Prio == "high" && rapid.IntRange(0, 2).Draw(t, "high_in_limit_case") != 0 {
+				// most limit cases are without high-priority microtasks; in the others the bound is judged at the
+				// moments at which none of them is running (it finished, the others go on)
 				m.Prio = "med"
 			}
 			if m.Variant != "signal" {
@@ -186,6 +192,7 @@ func runCase(t fatalf, c *caseSpec) (peak int32) {
 	maxDelay := time.Duration(c.MaxDelayMS) * time.Millisecond
 
 	var gauge, peakV, over int32 // medium+low functions currently executing
+	var highRunning int32        // high-priority functions currently executing
 	var wg sync.WaitGroup
 	var mu sync.Mutex
 	var problems []string
@@ -231,7 +238,12 @@ func runCase(t fatalf, c *caseSpec) (peak int32) {
 				}
 				body := func(ctx context.Context) error {
 					atomic.AddInt32(&o.runs, 1)
+					if spec.Prio == "high" {
+						atomic.AddInt32(&highRunning, 1)
+						defer atomic.AddInt32(&highRunning, -1)
+					}
 					if spec.Prio != "high" {
+						noHighBefore := atomic.LoadInt32(&highRunning) == 0
 						g := atomic.AddInt32(&gauge, 1)
 						for {
 							p := atomic.LoadInt32(&peakV)
@@ -239,7 +251,7 @@ func runCase(t fatalf, c *caseSpec) (peak int32) {
 								break
 							}
 						}
-						if c.LimitCase && int(g) > c.Limit {
+						if c.LimitCase && int(g) > c.Limit && noHighBefore && atomic.LoadInt32(&highRunning) == 0 {
 							atomic.AddInt32(&over, 1)
 						}
 						defer atomic.AddInt32(&gauge, -1)
